@@ -612,7 +612,7 @@ func (s *RocksDBStore) LoadSnapshot(r io.ReadCloser) error {
 
 		err = s.db.Write(wo, batch)
 		if err != nil {
-			return nil
+			return err
 		}
 	}
 
